@@ -178,6 +178,47 @@ def run(ctx):
                                 ctx.violation('prss-ext-field-secret GF(%d^%d) m=%d t=%d' % (pp, dd, m, t), {'h': h})
                 ctx.case({'ext': [pp, dd], 'm': m, 't': t}, kind='GF(p^d)')
     ctx.extra['extension_field_oracle_checks'] = nx
+    # ---- end to end: the keys the parties actually hold after real handshakes (simulator), real runtime calls
+    from lib.sim import Sim, Fifo
+    ne2e = 0
+    for (m, t) in [(3, 1), (4, 1), (5, 2)] + ([(5, 1), (7, 3)] if ctx.tier == 'thorough' else []):
+        sim = Sim(m, t, seed=rng.randrange(10**6))
+        try:
+            sim.start()
+
+            async def prog(mpc, mods, pid):
+                th = mods['mpyc.thresha']
+                out = {}
+                for name, st in (('secint16', mpc.SecInt(16)), ('secfld', mpc.SecFld(modulus=2**31 - 1))):
+                    fld = st.field
+                    r = mpc._randoms(st, 3)
+                    out[name + '/rand'] = [int(v.value) for v in await mpc.gather(r)]
+                    z = th.pseudorandom_share_zero(fld, len(mpc.parties), mpc.pid, mpc.prfs(fld.order), mpc._prss_uci(), 3)
+                    out[name + '/zero'] = [int(v.value) for v in z]
+                    out[name + '/p'] = int(fld.modulus)
+                    out[name + '/open'] = [int(v.value) if hasattr(v, 'value') else int(v) for v in await mpc.output(r, raw=True)]
+                return out
+            res = sim.run(prog, Fifo(), idle_limit=400)
+            key = {'m': m, 't': t, 'e2e': True}
+            ctx.case(key, kind='end-to-end m=%d t=%d' % (m, t))
+            if any(not isinstance(r, dict) for r in res):
+                ctx.violation('e2e-run-failed m=%d t=%d' % (m, t), {**key, 'result': str(res)[:400]})
+                continue
+            xs = list(range(1, m + 1))
+            for name in ('secint16', 'secfld'):
+                p = res[0][name + '/p']
+                for h in range(3):
+                    ne2e += 1
+                    col = [res[i][name + '/rand'][h] for i in range(m)]
+                    opened = res[0][name + '/open'][h] % p
+                    if not interp_ok(p, xs, col, t, opened):
+                        ctx.violation('e2e-prss-shares-inconsistent m=%d t=%d' % (m, t), {**key, 'type': name, 'shares': col, 'opened': opened})
+                    zcol = [res[i][name + '/zero'][h] for i in range(m)]
+                    if not interp_ok(p, xs, zcol, 2 * t, 0):
+                        ctx.violation('e2e-prss-zero-shares-inconsistent m=%d t=%d' % (m, t), {**key, 'type': name, 'shares': zcol})
+        finally:
+            sim.close()
+    ctx.extra['end_to_end_values_checked'] = ne2e
     ctx.notes.append('numpy variants compared: %s' % have_np)
     if ctx.broken and not ctx.violations:
         ctx.unproved('C15 model/proof', {'broken': ctx.broken[:5]})
